@@ -35,6 +35,7 @@ PHASES = ['l', 'g', 's', 'L', 'S']
 RTOL = 1e-9
 ATOL = 1e-12
 
+CHEM_PHASE = {'N2': 'g', 'CO2': 'g', 'Glucose': 's'}
 FLOW_ALPHABET = [0.0, 0.0, 0.25, 0.5, 1.0, 1.5, 2.0, 3.0, 10.0, 0.125, 100.0, 1e-3, 1e3]
 T_ALPHABET = [280.0, 298.15, 300.0, 320.0, 350.0, 360.0, 400.0]
 P_ALPHABET = [101325.0, 50000.0, 202650.0, 1e6]
@@ -66,6 +67,15 @@ OPS_BY_PROP = {
             'set_phases', 'link_with', 'unlink', 'proxy', 'flow_proxy', 'copy_like', 'copy', 'restart',
             'reset_cache', 'view', 'scale', 'mix_from', 'bad_units', 'churn', 'reduce_phases', 'empty',
             'split_to', 'check_views', 'check_views'],
+    'C12': ['set_phases'] * 4 + ['reduce_phases', 'as_stream', 'touch_solver', 'touch_solver', 'view_write',
+            'view_write', 'view_write', 'save_data', 'restore_data', 'restore_data', 'set_flow', 'set_flow',
+            'set_T', 'set_P', 'restart', 'view', 'copy', 'mix_from', 'scale', 'empty', 'copy_like', 'link_with',
+            'unlink', 'reset_cache'],
+    'C13': ['copy', 'copy', 'copy_like', 'copy_like', 'copy_flow', 'copy_thermal_condition', 'copy_phase', 'proxy',
+            'proxy', 'flow_proxy', 'flow_proxy', 'link_with', 'link_with', 'link_with', 'unlink', 'unlink', 'view',
+            'restart', 'pickle_obj', 'set_flow', 'set_flow', 'set_flow', 'set_T', 'set_P', 'set_phase', 'scale',
+            'empty', 'set_total', 'mix_from', 'split_to', 'separate_out', 'read_prop', 'read_flow', 'save_data',
+            'restore_data', 'set_phases', 'churn'],
     'C14': ['read_prop'] * 8 + BACKGROUND_MUTATORS * 2 + ['set_phase', 'set_phases', 'mix_from', 'split_to',
             'copy_like', 'link_with', 'unlink', 'proxy', 'flow_proxy', 'view', 'restart', 'reset_cache',
             'reduce_phases', 'copy', 'separate_out', 'copy_flow'],
@@ -113,10 +123,13 @@ TASKS_BY_PROP = {
     'C11': ['link_cycle', 'link_cycle', 'revisit'],
     'C13': ['link_cycle', 'revisit'],
     'C01': ['link_cycle'],
+    'C12': ['link_cycle', 'revisit'],
     'C10': ['revisit'],
 }
 
 CORE_OPS = {
+    'C12': {'set_phases', 'reduce_phases', 'as_stream', 'touch_solver', 'view_write', 'restore_data'},
+    'C13': {'copy', 'copy_like', 'proxy', 'flow_proxy', 'link_with', 'unlink', 'restart', 'pickle_obj'},
     'C01': set(MIX_OPS),
     'C10': {'read_flow', 'set_flow', 'churn'},
     'C11': {'read_flow', 'set_flow', 'check_views', 'set_T', 'set_phase'},
@@ -177,7 +190,10 @@ class StreamWorld(BaseWorld):
         self.counter = 0
         self.saved_data = {}
         self.tasks = None
+        self.fgroup_kind = {}
         self.fgroup = {}      # name -> id of the group of streams expected to share flow data
+        self.tgroup = {}      # ... expected to share temperature and pressure
+        self.pgroup = {}      # ... expected to share the phase (single-phase streams)
         self.ngroups = 0
         for spec in cfg['streams']:
             self._create(spec)
@@ -198,6 +214,8 @@ class StreamWorld(BaseWorld):
         self.pkg_of[spec['name']] = spec['pkg']
         self.meta[spec['name']] = {'origin': 'initial'}
         self.fgroup[spec['name']] = self.new_group()
+        self.tgroup[spec['name']] = self.new_group()
+        self.pgroup[spec['name']] = self.new_group()
         return s
 
     def new_group(self):
@@ -212,11 +230,23 @@ class StreamWorld(BaseWorld):
         self.counter += 1
         return f'{prefix}{self.counter}'
 
-    def add_stream(self, name, s, pkg, origin, parent=None, shares_flow=False):
+    def add_stream(self, name, s, pkg, origin, parent=None, shares_flow=False, shares_tp=False,
+                   shares_phase=False, view_of=None):
         self.streams[name] = s
         self.pkg_of[name] = pkg
         self.meta[name] = {'origin': origin, 'parent': parent}
+        if view_of is None and parent and self.meta[parent].get('view_of') and shares_flow:
+            if shares_tp:
+                view_of = self.meta[parent]['view_of']      # a proxy of a phase view is a phase view
+            else:
+                self.meta[name]['orphan'] = True            # flow proxy of a view: no sharing expectations kept
+        if view_of:
+            self.meta[name]['view_of'] = view_of
+        if parent and self.meta[parent].get('orphan'):
+            self.meta[name]['orphan'] = True
         self.fgroup[name] = self.fgroup[parent] if (shares_flow and parent) else self.new_group()
+        self.tgroup[name] = self.tgroup[parent] if (shares_tp and parent) else self.new_group()
+        self.pgroup[name] = self.pgroup[parent] if (shares_phase and parent) else self.new_group()
         self.touched.add(name)
 
     def pk(self, name):
@@ -457,6 +487,25 @@ class StreamWorld(BaseWorld):
         return r.sample(cands, k) if k > 1 else [r.choice(cands)]
 
     def in_region(self, ev):
+        if 'C01-multi-copy-flow-phases' in self.regions and self.pre_fields_ok(ev):
+            # MultiStream.copy_flow between two multi-phase streams with different phase tuples
+            # (reached directly or through a one-inlet mix without energy balance)
+            pair = None
+            if ev['op'] == 'copy_flow':
+                pair = (ev['stream'], ev['other'])
+            elif ev['op'] == 'mix_from' and not ev.get('energy_balance'):
+                ne = [i for i in ev['inlets'] if not self.streams[i].isempty()]
+                if len(ne) == 1:
+                    pair = (ev['stream'], ne[0])
+            if pair and all(self.is_multi(x) for x in pair) and \
+                    tuple(self.streams[pair[0]].phases) != tuple(self.streams[pair[1]].phases):
+                return 'C01-multi-copy-flow-phases'
+        if ('C12-accessor-relabels-phase' in self.regions and ev['op'] == 'touch_solver'
+                and self.pre_fields_ok(ev) and not self.is_multi(ev['stream'])):
+            ph = self.streams[ev['stream']].phase
+            need = {'vle': 'lLg', 'lle': 'lL', 'sle': 'lLs'}[ev['which']]
+            if ph not in need:
+                return 'C12-accessor-relabels-phase'
         if 'shared-representation-change' in self.regions:
             for n in self.representation_change_targets(ev):
                 if n in self.fgroup and self.group_size(n) > 1:
@@ -685,6 +734,38 @@ class StreamWorld(BaseWorld):
 
     def gen_unlink(self, r):
         return {'stream': self.names(r)[0]}
+
+    def gen_view_write(self, r):
+        nm = self.names(r, kind='multi')
+        if not nm:
+            return None
+        st = self.streams[nm[0]]
+        pk = self.pk(nm[0])
+        return {'stream': nm[0], 'phase': r.choice(list(st.phases)), 'chem': r.choice(pk.ids),
+                'value': r.choice([x for x in FLOW_ALPHABET if x]), 'via': r.choice(['view', 'parent']),
+                'T': r.choice(T_ALPHABET)}
+
+    def gen_save_data(self, r):
+        return {'stream': self.names(r)[0], 'slot': f'd{r.randint(0, 2)}'}
+
+    def gen_restore_data(self, r):
+        if not self.saved_data:
+            return None
+        slot = r.choice(sorted(self.saved_data))
+        return {'stream': self.saved_data[slot]['stream'], 'slot': slot}
+
+    def gen_copy_thermal_condition(self, r):
+        nm = self.names(r, 2)
+        return {'stream': nm[0], 'other': nm[1]} if nm else None
+
+    def gen_copy_phase(self, r):
+        nm = self.names(r, 2, kind='single')
+        return {'stream': nm[0], 'other': nm[1]} if nm else None
+
+    def gen_pickle_obj(self, r):
+        return {'what': r.choice(['chemical', 'thermo', 'stream_meta']), 'pkg': r.choice(['A', 'B', 'C']),
+                'chem': r.choice(sorted(universe.CHEMICAL_SPECS)), 'price': r.choice([0.0, 0.5, 3.25]),
+                'cf': r.choice([None, {'GWP': 1.5}, {'GWP': 2.0, 'FEC': 0.25}]), 'multi': r.random() < 0.5}
 
     def gen_restart(self, r):
         return {'stream': self.names(r)[0]}
@@ -942,6 +1023,13 @@ class StreamWorld(BaseWorld):
         a, b = ev['stream'], ev['other']
         if a == b or self.is_view_locked(a):
             return False
+        # a proxy and its original are one indexer object: re-linking one of them has no defined meaning
+        # for "proxy shares all flow and thermal data" (flows would follow, T/P would not) - not generated
+        if self.meta[a]['origin'] == 'proxy' or any(
+                m['origin'] == 'proxy' and m.get('parent') == a and n in self.streams
+                and self.fgroup.get(n) == self.fgroup.get(a) and self.tgroup.get(n) == self.tgroup.get(a)
+                for n, m in self.meta.items()):
+            return False
         if self.pkg_of[a] != self.pkg_of[b]:
             return False
         if self.is_multi(a) != self.is_multi(b):
@@ -950,6 +1038,21 @@ class StreamWorld(BaseWorld):
             # sharing the (phase x chemical) data only makes sense between equal phase tuples
             return tuple(self.streams[a].phases) == tuple(self.streams[b].phases)
         return True
+
+    def pre_view_write(self, ev):
+        n = ev['stream']
+        return self.is_multi(n) and ev['phase'] in self.streams[n].phases and ev['chem'] in self.pk(n).pos
+
+    def pre_restore_data(self, ev):
+        d = self.saved_data.get(ev['slot'])
+        return bool(d) and d['stream'] == ev['stream'] and not self.is_view_locked(ev['stream'])
+
+    def pre_copy_phase(self, ev):
+        a, b = ev['stream'], ev['other']
+        return a != b and not self.is_multi(a) and not self.is_multi(b) and not self.is_view_locked(a)
+
+    def pre_copy_thermal_condition(self, ev):
+        return ev['stream'] != ev['other']
 
     def pre_unlink(self, ev):
         return not self.is_view_locked(ev['stream'])
@@ -1035,11 +1138,115 @@ class StreamWorld(BaseWorld):
         if op in CORE_OPS.get(self.prop, ()):
             self.stats['mechanism_ops'] += 1
         fn = getattr(self, 'do_' + op)
+        snap = None
+        if self.prop == 'C13':
+            snap = {n: self.project(n) for n in sorted(self.streams)}
+            groups = (dict(self.fgroup), dict(self.tgroup), dict(self.pgroup))
         with warnings.catch_warnings():
             warnings.simplefilter('ignore')
             obs = fn(ev)
+            if snap is not None:
+                self.check_sharing(ev, snap, groups, obs)
         self.after_step(ev)
         return obs
+
+    # ------------------------------------------------------------ C13: alias-graph refinement
+    def written(self, ev):
+        """streams an operation is documented to write (flows 'f', T/P 't', phase 'p')"""
+        op = ev['op']
+        st = ev.get('stream')
+        W = {'f': set(), 't': set(), 'p': set()}
+        if op in ('set_flow', 'set_total', 'scale', 'imul', 'empty', 'churn'):
+            W['f'].add(st)
+        elif op == 'set_T' or op == 'set_P' or op == 'copy_thermal_condition':
+            W['t'].add(st)
+        elif op in ('set_phase', 'copy_phase'):
+            W['p'].add(st)
+            W['f'].add(st)
+        elif op in ('mix_from', 'iadd', 'separate_out', 'isub', 'copy_like', 'restore_data', 'set_phases',
+                    'reduce_phases', 'as_stream', 'touch_solver', 'link_with', 'unlink', 'restart'):
+            for k in W:
+                W[k].add(st)
+        elif op == 'split_to':
+            for k in W:
+                W[k].update([ev['s1'], ev['s2']])
+        elif op == 'copy_flow':
+            W['f'].add(st)
+            if ev.get('remove'):
+                W['f'].add(ev['other'])
+        elif op == 'view_write':
+            W['f'].add(st)
+            W['t'].add(st)
+        return W
+
+    def same_proj(self, a, b, flows=True, tp=True, phase=True):
+        if phase and (a.kind != b.kind or tuple(a.phases) != tuple(b.phases)):
+            return False
+        if tp and (a.T != b.T or a.P != b.P):
+            return False
+        if flows:
+            if a.kind == 'single' and b.kind == 'single':
+                return close(a.total(), b.total())      # the label is the phase aspect, not the flow aspect
+            if set(a.rows) != set(b.rows):
+                return False
+            return all(close(a.rows[k], b.rows[k]) for k in a.rows)
+        return True
+
+    def check_sharing(self, ev, snap, groups, obs):
+        if isinstance(obs, str) and (obs.startswith('skip') or obs.startswith('exc') or obs.startswith('unsupported')):
+            failed = True
+        else:
+            failed = False
+        fg0, tg0, pg0 = groups
+        W = self.written(ev)
+        # closure of the written sets under the sharing that was in force BEFORE the operation
+        def closure(names, grp):
+            ids = {grp[n] for n in names if n in grp}
+            return {n for n, g in grp.items() if g in ids}
+        Wf, Wt, Wp = closure(W['f'], fg0), closure(W['t'], tg0), closure(W['p'], pg0)
+        for n, before in snap.items():
+            if n not in self.streams or self.meta[n].get('orphan'):
+                continue
+            now = self.project(n)
+            if n not in Wf and not self.same_proj(before, now, flows=True, tp=False, phase=False):
+                self.fail('unshared-flow-changed', f'{ev["op"]} on {sorted(W["f"])} changed the flows of {n}, which shares '
+                          f'no flow data with it', {'event': ev, 'before': before.to_json(), 'after': now.to_json()})
+            if n not in Wt and (before.T != now.T or before.P != now.P):
+                self.fail('unshared-TP-changed', f'{ev["op"]} on {sorted(W["t"])} changed T/P of {n}, which shares no '
+                          f'thermal condition with it', {'event': ev, 'before': before.to_json(), 'after': now.to_json()})
+            if n not in Wp and n not in Wf and tuple(before.phases) != tuple(now.phases):
+                self.fail('unshared-phase-changed', f'{ev["op"]} changed the phase(s) of {n}',
+                          {'event': ev, 'before': before.to_json(), 'after': now.to_json()})
+        if failed:
+            return
+        # what is advertised as shared must be equal now
+        names = [n for n in sorted(self.streams) if not self.meta[n].get('orphan')]
+        proj = {n: self.project(n) for n in names}
+        for i, a in enumerate(names):
+            for b in names[i + 1:]:
+                pa, pb = proj[a], proj[b]
+                if self.tgroup[a] == self.tgroup[b] and (pa.T != pb.T or pa.P != pb.P):
+                    self.fail('shared-TP-differs', f'{a} and {b} share temperature and pressure but read '
+                              f'({pa.T},{pa.P}) and ({pb.T},{pb.P})', {'event': ev})
+                if self.fgroup[a] == self.fgroup[b]:
+                    va, vb = self.meta[a].get('view_of'), self.meta[b].get('view_of')
+                    if va and not vb and va[0] == b:
+                        ok = va[1] in pb.rows and close(pa.rows[pa.phases[0]], pb.rows[va[1]])
+                    elif vb and not va and vb[0] == a:
+                        ok = vb[1] in pa.rows and close(pb.rows[pb.phases[0]], pa.rows[vb[1]])
+                    elif va or vb:
+                        continue
+                    elif pa.kind == pb.kind and (pa.kind == 'single' or tuple(pa.phases) == tuple(pb.phases)):
+                        ok = all(close(x, y) for x, y in zip(pa.rows.values(), pb.rows.values()))
+                    else:
+                        continue
+                    if not ok:
+                        self.fail('shared-flow-differs', f'{a} and {b} share flow data but their flows differ',
+                                  {'event': ev, a: pa.to_json(), b: pb.to_json()})
+                if (self.pgroup[a] == self.pgroup[b] and pa.kind == 'single' and pb.kind == 'single'
+                        and pa.phases != pb.phases):
+                    self.fail('shared-phase-differs', f'{a} and {b} share the phase but read {pa.phases} and {pb.phases}',
+                              {'event': ev})
 
     def call(self, ev, f):
         """Run the real call with the event's fault plan armed.
@@ -1691,7 +1898,32 @@ class StreamWorld(BaseWorld):
             if not close(before.total(), after.total()):
                 self.fail('phases-total', f'{name}: per-chemical totals changed by phases={ev["phases"]}',
                           {'before': before.to_json(), 'after': after.to_json()})
+        if self.prop == 'C12':
+            self.check_conversion(name, ev, before, after, set(ev['phases']))
         return 'ok'
+
+    def check_conversion(self, name, ev, before, after, target=None):
+        """T, P unchanged; each phase's material stays under its label (case folding only when the exact
+        label is absent from the new representation)"""
+        if before.T != after.T or before.P != after.P:
+            self.fail('conversion-TP', f'{name}: T/P changed by {ev["op"]}',
+                      {'before': before.to_json(), 'after': after.to_json()})
+        if target is not None:
+            want_kind = 'single' if len(target) == 1 else 'multi'
+            if after.kind != want_kind or set(after.phases) != set(target):
+                self.fail('conversion-kind', f'{name}: phases={sorted(target)} gave kind {after.kind} with phases '
+                          f'{after.phases}', {'event': ev})
+        for ph, row in before.rows.items():
+            if not row.any():
+                continue
+            lab = ph if ph in after.rows else ph.swapcase()
+            if lab not in after.rows or not close(after.rows[lab], row):
+                self.fail('conversion-label', f'{name}: material of phase {ph!r} is not under that label after '
+                          f'{ev["op"]}', {'event': ev, 'before': before.to_json(), 'after': after.to_json()})
+        for ph, row in after.rows.items():
+            if row.any() and not any(b.any() and (p == ph or p.swapcase() == ph) for p, b in before.rows.items()):
+                self.fail('conversion-label', f'{name}: phase {ph!r} holds material it did not hold before {ev["op"]}',
+                          {'event': ev, 'before': before.to_json(), 'after': after.to_json()})
 
     def do_reduce_phases(self, ev):
         name = ev['stream']
@@ -1705,15 +1937,33 @@ class StreamWorld(BaseWorld):
         if self.prop in ('C01', 'C12') and not close(before.total(), after.total()):
             self.fail('phases-total', f'{name}: totals changed by reduce_phases',
                       {'before': before.to_json(), 'after': after.to_json()})
+        if self.prop == 'C12':
+            if before.T != after.T or before.P != after.P:
+                self.fail('conversion-TP', f'{name}: T/P changed by reduce_phases')
+            # collapsing to the phases actually present: material keeps its state of aggregation
+            for grp in ('g', 'lL', 'sS'):
+                b = sum((row for ph, row in before.rows.items() if ph in grp), np.zeros(self.pk(name).n))
+                a = sum((row for ph, row in after.rows.items() if ph in grp), np.zeros(self.pk(name).n))
+                if not close(a, b):
+                    self.fail('reduce-label', f'{name}: reduce_phases moved material between states of aggregation',
+                              {'before': before.to_json(), 'after': after.to_json()})
         return 'ok'
 
     def do_as_stream(self, ev):
         name = ev['stream']
         s = self.streams[name]
+        before = self.project(name)
         r = self.call(ev, lambda: s.as_stream())
         self.touch(name)
         if r[0] == 'exc':
             return self.unexpected(ev, r, 'as_stream')
+        if self.prop == 'C12':
+            after = self.project(name)
+            if after.kind != 'single':
+                self.fail('as_stream-kind', f'{name}: still multi-phase after as_stream()')
+            if not close(before.total(), after.total()):
+                self.fail('phases-total', f'{name}: totals changed by as_stream')
+            self.check_conversion(name, ev, before, after)
         return 'ok'
 
     def do_touch_solver(self, ev):
@@ -1725,8 +1975,10 @@ class StreamWorld(BaseWorld):
         if r[0] == 'exc':
             return self.unexpected(ev, r, 'touch_solver')
         after = self.project(name)
-        if self.prop in ('C12',) and not close(before.total(), after.total()):
-            self.fail('accessor-total', f'{name}: totals changed by asking for .{ev["which"]}')
+        if self.prop in ('C12',):
+            if not close(before.total(), after.total()):
+                self.fail('accessor-total', f'{name}: totals changed by asking for .{ev["which"]}')
+            self.check_conversion(name, ev, before, after)
         return 'ok'
 
     # ---- structure ----
@@ -1737,6 +1989,11 @@ class StreamWorld(BaseWorld):
         if r[0] == 'exc':
             return self.unexpected(ev, r, 'copy')
         self.add_stream(ev['new'], r[1], self.pkg_of[name], 'copy', name)
+        if self.prop == 'C13':
+            pa, pb = self.project(name), self.project(ev['new'])
+            if not self.same_proj(pa, pb):
+                self.fail('copy-differs', f'{name}.copy() differs from the original',
+                          {'original': pa.to_json(), 'copy': pb.to_json()})
         return 'ok'
 
     def do_proxy(self, ev):
@@ -1746,7 +2003,8 @@ class StreamWorld(BaseWorld):
         if r[0] == 'exc':
             return self.unexpected(ev, r, 'proxy')
         origin = 'view' if self.is_view_locked(name) else 'proxy'
-        self.add_stream(ev['new'], r[1], self.pkg_of[name], origin, name, shares_flow=True)
+        self.add_stream(ev['new'], r[1], self.pkg_of[name], origin, name, shares_flow=True, shares_tp=True,
+                        shares_phase=True)
         return 'ok'
 
     def do_flow_proxy(self, ev):
@@ -1765,16 +2023,37 @@ class StreamWorld(BaseWorld):
         r = self.call(ev, lambda: s[ev['phase']])
         if r[0] == 'exc':
             return self.unexpected(ev, r, 'view')
-        self.add_stream(ev['new'], r[1], self.pkg_of[name], 'view', name, shares_flow=True)
+        self.add_stream(ev['new'], r[1], self.pkg_of[name], 'view', name, shares_flow=True, shares_tp=True,
+                        view_of=[name, ev['phase']])
         return 'ok'
 
     def do_copy_like(self, ev):
         a, b = ev['stream'], ev['other']
         sa, sb = self.streams[a], self.streams[b]
+        pb0 = self.project(b)
         r = self.call(ev, lambda: sa.copy_like(sb))
         self.touch(a)
         if r[0] == 'exc':
             return self.unexpected(ev, r, 'copy_like')
+        if self.is_multi(a) != (self.fgroup_kind.get(a, self.is_multi(a))):
+            pass
+        self.pgroup[a] = self.pgroup[a]
+        if self.prop in ('C13', 'C01'):
+            pa, pb = self.project(a), self.project(b)
+            if not self.same_proj(pb0, pb):
+                self.fail('copy_like-source-changed', f'{a}.copy_like({b}) changed {b}')
+            if pa.T != pb.T or pa.P != pb.P:
+                self.fail('copy_like-TP', f'{a}.copy_like({b}): T,P ({pa.T},{pa.P}) != ({pb.T},{pb.P})',
+                          {'event': ev, 'a': pa.to_json(), 'b': pb.to_json()})
+            if not close(pa.total(), self.mapped(b, a, pb.total())):
+                self.fail('copy_like-flows', f'{a}.copy_like({b}): totals {pa.total().tolist()} != '
+                          f'{self.mapped(b, a, pb.total()).tolist()}', {'event': ev, 'a': pa.to_json(), 'b': pb.to_json()})
+            for ph, row in pb.rows.items():
+                if row.any():
+                    lab = ph if ph in pa.rows else ph.swapcase()
+                    if lab not in pa.rows or not close(pa.rows[lab], self.mapped(b, a, row)):
+                        self.fail('copy_like-phase', f'{a}.copy_like({b}): material of phase {ph} is not found under '
+                                  f'that label', {'event': ev, 'a': pa.to_json(), 'b': pb.to_json()})
         return 'ok'
 
     def do_link_with(self, ev):
@@ -1786,7 +2065,19 @@ class StreamWorld(BaseWorld):
             return self.unexpected(ev, r, 'link_with')
         if ev['flow']:
             self.fgroup[a] = self.fgroup[b]
+        if ev['TP']:
+            self.tgroup[a] = self.tgroup[b]
+        if ev['phase'] and not self.is_multi(a):
+            self.pgroup[a] = self.pgroup[b]
+        self.views_follow(a)
         return 'ok'
+
+    def views_follow(self, a):
+        """per-phase streams of `a` are views of a's CURRENT data and thermal condition"""
+        for n, m in self.meta.items():
+            if m.get('view_of') and m['view_of'][0] == a and not m.get('orphan'):
+                self.fgroup[n] = self.fgroup[a]
+                self.tgroup[n] = self.tgroup[a]
 
     def do_unlink(self, ev):
         a = ev['stream']
@@ -1797,6 +2088,178 @@ class StreamWorld(BaseWorld):
         if r[0] == 'exc':
             return self.unexpected(ev, r, 'unlink')
         self.fgroup[a] = self.new_group()
+        self.tgroup[a] = self.new_group()
+        self.pgroup[a] = self.new_group()
+        self.views_follow(a)
+        if self.prop == 'C13':
+            after = self.project(a)
+            if not self.same_proj(before, after):
+                self.fail('unlink-values', f'{a}: unlink changed the values',
+                          {'before': before.to_json(), 'after': after.to_json()})
+        return 'ok'
+
+    def do_view_write(self, ev):
+        """C12: a per-phase sub-stream re-obtained from the parent is a live view in both directions"""
+        n = ev['stream']
+        ms = self.streams[n]
+        ph, chem, val = ev['phase'], ev['chem'], ev['value']
+        r = self.call(ev, lambda: ms[ph])
+        if r[0] == 'exc':
+            return self.unexpected(ev, r, 'view_write')
+        v = r[1]
+        self.touch(n)
+        if ev['via'] == 'view':
+            v.imol[chem] = val
+            got = ms.imol[ph, chem]
+        else:
+            ms.imol[ph, chem] = val
+            got = v.imol[chem]
+        if self.prop == 'C12':
+            if not close(float(got), val):
+                self.fail('view-not-live', f'{n}[{ph!r}]: wrote {val} to {chem} through the '
+                          f'{"view" if ev["via"] == "view" else "parent"}, the other side reads {float(got)}',
+                          {'event': ev, 'state': self.project(n).to_json()})
+            if ev['via'] == 'view':
+                v.T = ev['T']
+                if ms.T != ev['T']:
+                    self.fail('view-TP-not-shared', f'{n}[{ph!r}].T = {ev["T"]} is not seen by the parent ({ms.T})')
+            else:
+                ms.T = ev['T']
+                if v.T != ev['T']:
+                    self.fail('view-TP-not-shared', f'{n}.T = {ev["T"]} is not seen by the {ph!r} view ({v.T})')
+            if v.phase != ph:
+                self.fail('view-phase', f'{n}[{ph!r}] reports phase {v.phase!r}')
+        else:
+            (v if ev['via'] == 'view' else ms).T = ev['T']
+        return 'ok'
+
+    def do_save_data(self, ev):
+        n = ev['stream']
+        r = self.call(ev, lambda: self.streams[n].get_data())
+        if r[0] == 'exc':
+            return self.unexpected(ev, r, 'save_data')
+        self.saved_data[ev['slot']] = {'stream': n, 'data': r[1], 'proj': self.project(n)}
+        return 'ok'
+
+    def do_restore_data(self, ev):
+        n = ev['stream']
+        d = self.saved_data[ev['slot']]
+        r = self.call(ev, lambda: self.streams[n].set_data(d['data']))
+        self.touch(n)
+        if r[0] == 'exc':
+            return self.unexpected(ev, r, 'restore_data')
+        if self.prop in ('C12', 'C13'):
+            now = self.project(n)
+            want = d['proj']
+            ok = (now.T == want.T and now.P == want.P
+                  and close(now.total(), want.total())
+                  and all(close(now.rows[ph], want.rows[ph]) if ph in now.rows else not want.rows[ph].any()
+                          for ph in want.rows)
+                  and all(ph in want.rows or not now.rows[ph].any() for ph in now.rows))
+            if not ok:
+                self.fail('restore', f'{n}: set_data(get_data()) did not reproduce flows/phases/T/P',
+                          {'saved': want.to_json(), 'now': now.to_json()})
+        return 'ok'
+
+    def do_copy_thermal_condition(self, ev):
+        a, b = ev['stream'], ev['other']
+        r = self.call(ev, lambda: self.streams[a].copy_thermal_condition(self.streams[b]))
+        self.touch(a)
+        if r[0] == 'exc':
+            return self.unexpected(ev, r, 'copy_thermal_condition')
+        if self.prop == 'C13':
+            pa, pb = self.project(a), self.project(b)
+            if pa.T != pb.T or pa.P != pb.P:
+                self.fail('copy-TP', f'{a}.copy_thermal_condition({b}): ({pa.T},{pa.P}) != ({pb.T},{pb.P})')
+        return 'ok'
+
+    def do_copy_phase(self, ev):
+        a, b = ev['stream'], ev['other']
+        r = self.call(ev, lambda: self.streams[a].copy_phase(self.streams[b]))
+        self.touch(a)
+        if r[0] == 'exc':
+            return self.unexpected(ev, r, 'copy_phase')
+        if self.prop == 'C13' and self.streams[a].phase != self.streams[b].phase:
+            self.fail('copy-phase', f'{a}.copy_phase({b}) left phase {self.streams[a].phase!r}')
+        return 'ok'
+
+    def do_pickle_obj(self, ev):
+        """C13: pickles of chemicals / property packages / streams with price and factors round-trip"""
+        what = ev['what']
+        pk = universe.package(ev['pkg'])
+        if what == 'chemical':
+            c = universe.chemical(ev['chem'])
+            r = self.call(ev, lambda: pickle.loads(pickle.dumps(c)))
+            if r[0] == 'exc':
+                if self.prop == 'C13':
+                    self.fail('pickle-raises', f'pickling chemical {ev["chem"]} raised {type(r[1]).__name__}: {r[1]}')
+                return 'exc'
+            d = r[1]
+            if self.prop == 'C13':
+                for attr in ('ID', 'CAS', 'MW', 'Tb', 'Tm', 'Hf', 'formula', 'locked_state'):
+                    if getattr(c, attr, None) != getattr(d, attr, None):
+                        self.fail('pickle-chemical', f'{ev["chem"]}.{attr}: {getattr(c, attr, None)!r} -> '
+                                  f'{getattr(d, attr, None)!r} after unpickling')
+                ph = CHEM_PHASE.get(ev['chem'], 'l')
+                for f in ('H', 'S', 'V', 'Cn'):
+                    try:
+                        x = getattr(c, f)(ph, 320.0, 101325.0) if f != 'Cn' else c.Cn(ph, 320.0)
+                    except Exception:
+                        try:
+                            x = getattr(c, f)(320.0, 101325.0) if f != 'Cn' else c.Cn(320.0)
+                        except Exception:
+                            continue
+                    try:
+                        y = getattr(d, f)(ph, 320.0, 101325.0) if f != 'Cn' else d.Cn(ph, 320.0)
+                    except Exception:
+                        y = getattr(d, f)(320.0, 101325.0) if f != 'Cn' else d.Cn(320.0)
+                    if not close(x, y):
+                        self.fail('pickle-chemical', f'{ev["chem"]}.{f} at 320 K: {x} -> {y} after unpickling')
+            return 'ok'
+        if what == 'thermo':
+            th = pk.thermo
+            r = self.call(ev, lambda: pickle.loads(pickle.dumps(th)))
+            if r[0] == 'exc':
+                if self.prop == 'C13':
+                    self.fail('pickle-raises', f'pickling Thermo raised {type(r[1]).__name__}: {r[1]}')
+                return 'exc'
+            d = r[1]
+            if self.prop == 'C13':
+                if tuple(d.chemicals.IDs) != tuple(th.chemicals.IDs):
+                    self.fail('pickle-thermo', 'chemical IDs differ after unpickling')
+                z = np.ones(pk.n) / pk.n
+                with faults.disarmed():
+                    for ph in ('l', 'g'):
+                        x, y = th.mixture.H(ph, z, 330.0, 101325.0), d.mixture.H(ph, z, 330.0, 101325.0)
+                        if not close(x, y):
+                            self.fail('pickle-thermo', f'mixture.H({ph}) {x} -> {y} after unpickling')
+            return 'ok'
+        # stream with price / characterization factors / ID given at construction
+        flows = np.arange(1, pk.n + 1, dtype=float)
+        sid = '.' + self.new_name('x')      # an ID that is kept but not entered in the registry
+        if ev['multi']:
+            st = tmo.MultiStream(sid, phases=('g', 'l'), T=310.0, P=2e5, thermo=pk.thermo, price=ev['price'],
+                                 characterization_factors=ev['cf'])
+            st.imol['l'] = flows
+        else:
+            st = tmo.Stream(sid, flow=flows, T=310.0, P=2e5, thermo=pk.thermo, price=ev['price'],
+                            characterization_factors=ev['cf'])
+        r = self.call(ev, lambda: restart_copy(st))
+        if r[0] == 'exc':
+            if self.prop == 'C13':
+                self.fail('pickle-raises', f'pickling a stream raised {type(r[1]).__name__}: {r[1]}')
+            return 'exc'
+        d = r[1]
+        if self.prop == 'C13':
+            if (st.characterization_factors or {}) != (ev['cf'] or {}):
+                self.fail('constructor-cf', f'characterization factors given at construction {ev["cf"]} are stored as '
+                          f'{st.characterization_factors}')
+            if d.price != st.price or d.characterization_factors != st.characterization_factors or d.ID != st.ID:
+                self.fail('pickle-stream-meta', f'price/factors/ID: ({st.price},{st.characterization_factors},{st.ID!r}) -> '
+                          f'({d.price},{d.characterization_factors},{d.ID!r})')
+            if d.T != st.T or d.P != st.P or tuple(d.phases) != tuple(st.phases) or \
+                    not close(dense(d.imol.data), dense(st.imol.data)):
+                self.fail('pickle-roundtrip', 'unpickled stream differs in flows/phases/T/P')
         return 'ok'
 
     def do_restart(self, ev):
@@ -1809,6 +2272,11 @@ class StreamWorld(BaseWorld):
             return self.unexpected(ev, r, 'restart')
         self.streams[a] = r[1]
         self.fgroup[a] = self.new_group()
+        self.tgroup[a] = self.new_group()
+        self.pgroup[a] = self.new_group()
+        for n, m in self.meta.items():
+            if m.get('view_of') and m['view_of'][0] == a:
+                m['orphan'] = True      # a view of the object that was replaced
         if self.meta[a]['origin'] != 'initial':
             self.meta[a] = {'origin': 'restart'}
         self.touch(a)
@@ -2031,21 +2499,33 @@ class StreamWorld(BaseWorld):
                     sel = ~sel
             na, nb = self.project(a), self.project(b)
             tb = pb.total()
-            moved = np.where(sel, tb, 0.0)
-            moved_a = self.mapped(b, a, moved)
-            sel_a = self.mapped(b, a, sel.astype(float)) > 0
-            if ids == '...':
-                want_a = moved_a      # all flows are replaced by the other stream's
-            else:
-                want_a = np.where(sel_a, moved_a, pa.total())
-            if not close(na.total(), want_a):
-                self.fail('copy_flow-receiver', f'{a}.copy_flow({b},{ids},remove={ev["remove"]},exclude={ev["exclude"]}): '
-                          f'receiver totals {na.total().tolist()} expected {want_a.tolist()}',
-                          {'event': ev, 'a': pa.to_json(), 'b': pb.to_json()})
+            # source: what was selected leaves it iff remove, everything else stays
             want_b = np.where(sel, 0.0, tb) if ev['remove'] else tb
             if not close(nb.total(), want_b):
-                self.fail('copy_flow-source', f'{a}.copy_flow({b},{ids},remove={ev["remove"]}): source totals '
-                          f'{nb.total().tolist()} expected {want_b.tolist()}',
+                self.fail('copy_flow-source', f'{a}.copy_flow({b},{ids},remove={ev["remove"]},exclude={ev["exclude"]}): '
+                          f'source totals {nb.total().tolist()} expected {want_b.tolist()}',
+                          {'event': ev, 'a': pa.to_json(), 'b': pb.to_json()})
+            # receiver: the selected material arrives unchanged ("neither duplicates nor loses").
+            # Entries that were not selected are not constrained by the property.  For a multi-phase
+            # receiver the comparison is made on the rows the source material is documented to land in.
+            sel_a = self.mapped(b, a, sel.astype(float)) > 0
+            if na.kind == 'single':
+                got = na.total()
+                want = self.mapped(b, a, np.where(sel, tb, 0.0))
+            elif pb.kind == 'single':
+                ph = pb.phases[0]
+                if ph not in na.rows:
+                    return 'ok-unchecked'
+                got = na.rows[ph]
+                want = self.mapped(b, a, np.where(sel, pb.rows[ph], 0.0))
+            elif tuple(pb.phases) == tuple(na.phases):
+                got = na.total()
+                want = self.mapped(b, a, np.where(sel, tb, 0.0))
+            else:
+                return 'ok-unchecked'
+            if not close(got[sel_a], want[sel_a]):
+                self.fail('copy_flow-receiver', f'{a}.copy_flow({b},{ids},remove={ev["remove"]},exclude={ev["exclude"]}): '
+                          f'receiver has {got.tolist()} where the source supplied {want.tolist()}',
                           {'event': ev, 'a': pa.to_json(), 'b': pb.to_json()})
         return 'ok'
 
